@@ -657,6 +657,7 @@ def _worker(args):
             scns.append(Gen(rng, profile).scenario())
     runs, reqs = [], []
     for scn in scns:
+        common.note_inflight(scn)
         try:
             calls = scenario_requests(S, scn)
         except S.SolverBudget:
@@ -709,8 +710,7 @@ def run(ck, prop, n, profile, jobs=None, extra=None):
     if len(chunks) == 1:
         results = [_worker(chunks[0])]
     else:
-        with multiprocessing.get_context("fork").Pool(len(chunks)) as pool:
-            results = pool.map(_worker, chunks)
+        results = common.pmap(_worker, chunks)
     digests = set()
     for r in results:
         for k, v in r["counts"].items():
